@@ -168,6 +168,8 @@ def run(chk, only=None):
             chk.paths += len(paths)
             if ex.bound_hit:
                 chk.inconclusive_note(f"{cname}: path bound hit")
+            if paths and not any(p.kind == "ok" for p in paths) and not all(isinstance(p.value, (ValueError, NotImplementedError)) for p in paths):
+                chk.inconclusive_note(f"{cname}: vacuity -- every path raised ({type(paths[0].value).__name__}: {str(paths[0].value)[:80]})")
             for p in paths:
                 ctx.assign = dict(p.assign)  # replays fall back to this path's witness point
                 if p.kind == "exc":
